@@ -222,6 +222,18 @@ func init() {
 				res["_shuffle_ok"] = len(encs)
 				return res
 			}
+			// b is still held (as libocr holds the previous outcome) while other outcomes of the same size
+			// are encoded: an encoding must not be changed by later Encode calls
+			held := string(b)
+			for k := uint64(1); k <= 2; k++ {
+				other := o
+				other.ObservationTimestampNanoseconds += k * 1_000_000_000
+				other.LifeCycleStage = o.LifeCycleStage
+				codec.Encode(other)
+			}
+			if string(b) != held {
+				return J{"ok": nil, "_clobbered": true}
+			}
 			encs[string(b)] = true
 			m, merr := cdcOutcomeMsgJ(ver, b)
 			if merr != nil {
@@ -750,6 +762,10 @@ func monC10(op J, res any) (viol []Violation, nontrivial bool) {
 	ver := 1
 	if len(name) > 9 && name[9] == '0' {
 		ver = 0
+	}
+	if jBool(r["_clobbered"]) {
+		bad("encoding-clobbered", "the bytes returned by Encode changed when other outcomes were encoded afterwards")
+		return viol, true
 	}
 	switch name[11:] {
 	case "encode":
